@@ -13,6 +13,7 @@ import (
 	"strings"
 
 	"github.com/ipni/go-libipni/ingest/schema"
+	"github.com/libp2p/go-libp2p/core/crypto"
 	"github.com/libp2p/go-libp2p/core/peer"
 	"github.com/libp2p/go-libp2p/core/record"
 	"github.com/multiformats/go-varint"
@@ -85,8 +86,50 @@ type envView struct {
 	valid  bool // the signature verifies for (sigDomain, ty, pl) under the envelope's key
 }
 
+// viewer names what is not in the key pool locally (per case), so that equal
+// presentations print as equal terms and are checked once.
 type viewer struct {
-	junk int
+	junk      int
+	otherKeys map[string]int
+	otherIDs  map[string]int
+}
+
+func (v *viewer) keyIndex(k crypto.PubKey) int {
+	for _, it := range pool.Ids {
+		if it.Pub.Equals(k) {
+			return it.Index
+		}
+	}
+	raw, err := crypto.MarshalPublicKey(k)
+	if err != nil {
+		raw = []byte("unmarshalable")
+	}
+	if v.otherKeys == nil {
+		v.otherKeys = map[string]int{}
+	}
+	if n, ok := v.otherKeys[string(raw)]; ok {
+		return n
+	}
+	n := 500 + len(v.otherKeys)
+	v.otherKeys[string(raw)] = n
+	return n
+}
+
+func (v *viewer) idIndex(id peer.ID) int {
+	for _, it := range pool.Ids {
+		if it.ID == id {
+			return it.Index
+		}
+	}
+	if v.otherIDs == nil {
+		v.otherIDs = map[string]int{}
+	}
+	if n, ok := v.otherIDs[string(id)]; ok {
+		return n
+	}
+	n := 1000 + len(v.otherIDs)
+	v.otherIDs[string(id)] = n
+	return n
 }
 
 func (v *viewer) envelope(b []byte) envView {
@@ -94,7 +137,7 @@ func (v *viewer) envelope(b []byte) envView {
 	if err != nil {
 		return envView{}
 	}
-	ev := envView{parses: true, key: pool.KeyIndex(e.PublicKey), ty: e.PayloadType, pl: e.RawPayload}
+	ev := envView{parses: true, key: v.keyIndex(e.PublicKey), ty: e.PayloadType, pl: e.RawPayload}
 	// the signature bytes are not exported; re-read them from the protobuf
 	sig := envelopeSignature(b)
 	ok, err := e.PublicKey.Verify(makeUnsigned(sigDomain, e.PayloadType, e.RawPayload), sig)
@@ -144,7 +187,7 @@ func (v *viewer) coqAd(ad *schema.Advertisement, withSigs bool) string {
 }
 
 // idTable: peer.Decode of every ID string of the advertisement that decodes
-func idTable(ad *schema.Advertisement) string {
+func (v *viewer) idTable(ad *schema.Advertisement) string {
 	seen := map[string]bool{}
 	var it []string
 	add := func(s string) {
@@ -156,7 +199,7 @@ func idTable(ad *schema.Advertisement) string {
 		if err != nil {
 			return
 		}
-		it = append(it, fmt.Sprintf("(%s, %d)", coqBytes([]byte(s)), pool.IDIndex(id)))
+		it = append(it, fmt.Sprintf("(%s, %d)", coqBytes([]byte(s)), v.idIndex(id)))
 	}
 	add(ad.Provider)
 	if ad.ExtendedProvider != nil {
@@ -217,5 +260,5 @@ func verifyReal(ad *schema.Advertisement) (out verdict) {
 
 func coqVerifyCase(ad *schema.Advertisement, obs verdict) string {
 	v := &viewer{}
-	return fmt.Sprintf("(VC %s %s %s %s)", coqHashTable(hashTable(ad)), idTable(ad), v.coqAd(ad, true), coqVerdict(obs))
+	return fmt.Sprintf("(VC %s %s %s %s)", coqHashTable(hashTable(ad)), v.idTable(ad), v.coqAd(ad, true), coqVerdict(obs))
 }
